@@ -8,6 +8,7 @@ import (
 	"strings"
 	"sync"
 	"sync/atomic"
+	"verif/internal/cserve"
 
 	"verif/internal/ev"
 
@@ -86,6 +87,7 @@ type rtStats struct {
 	xzRaw, xzLz, xzWalkFail    int64
 	hist                       map[string]int64
 	xzFilesOK, xzFilesBad      int64
+	wuffsFilesOK               int64
 	encBytes, payloadBytes     int64
 	lzPayloadsWithCarryPending int64
 	xzChunksWithCarryPending   int64
@@ -254,15 +256,81 @@ func firstDiff(a, b []byte) int {
 	return n
 }
 
-// hookWuffsDecoders is where the C-level engine (E4 codec server: fresh C
-// generated from /repo/std/lzma and /repo/std/xz) will decode the same files
-// that were just written for xz.
-//
-// TODO(C17, C-level engine): NOT BUILT HERE. dir holds names[i] (encoded with
-// f) whose decoding must equal want[i] with an OK status. Until then this
-// returns false and the evidence lists the sub-family as not built.
-func hookWuffsDecoders(f format, dir string, names []string, want [][]byte) (ran bool) {
-	return false
+// wuffsSrv[w] is worker w's C state server (engine E4: fresh C generated from the working
+// tree's std/lzma and std/xz, see internal/cserve); nil when the sub-family is not run.
+var wuffsSrv []*cserve.Server
+
+// payloads above this size are left to the xz tool (the pipe copies are not free)
+const wuffsMaxPayload = 300000
+
+// hookWuffsDecoders decodes the same encodings with the generated Wuffs std/lzma (.lzma)
+// and std/xz (.xz) C decoders: status OK, every input byte consumed, output == payload.
+// Driver policy (DESIGN E4): "$short workbuf" -> re-issue with the work buffer grown to
+// workbuf_len().min; "$short write" -> re-issue with more destination room.
+func hookWuffsDecoders(r *ev.Run, w int, f format, specs []spec, which []int, encs, want [][]byte, st *rtStats) (ran bool) {
+	if wuffsSrv == nil || wuffsSrv[w] == nil {
+		return false
+	}
+	srv := wuffsSrv[w]
+	pkg := "lzma"
+	if f.xzFmt == "xz" {
+		pkg = "xz"
+	}
+	for i, enc := range encs {
+		sp := specs[which[i]]
+		fail := func(clause, detail string) {
+			r.Violation(f.name+":wuffs-c:"+clause+":"+sp.class(), fmt.Sprintf("generated std/%s C decoder on %s.Encode(%s): %s", pkg, f.name, sp, detail),
+				rtWitness{"roundtrip", f.name, "wuffs-c:" + clause, sp, detail})
+		}
+		capacity := uint32(len(want[i]) + 4096)
+		data := enc
+		status, ok := "", false
+		var last cserve.Result
+		srv.Do(cserve.Free(1))
+		res, err := srv.Do(cserve.New(1, pkg, cserve.NewOpts{}))
+		if err != nil || !res[0].OK {
+			ev.Fatal("cserve: cannot create a std/%s decoder: %v %+v", pkg, err, res)
+		}
+		for call := 0; call < 64; call++ {
+			res, err := srv.Do(cserve.Transform(1, data, true, capacity, cserve.WorkMin))
+			if err != nil {
+				if ce, isCrash := err.(*cserve.CrashError); isCrash {
+					fail("crash", ce.Summary())
+					srv.Restart()
+					status = "crash"
+					break
+				}
+				ev.Fatal("cserve: %v", err)
+			}
+			data = nil
+			last = res[0]
+			status, ok = last.Status, last.OK
+			if last.IsSuspension() && (strings.Contains(status, "short workbuf") || strings.Contains(status, "short write")) {
+				continue
+			}
+			break
+		}
+		if status == "crash" {
+			continue
+		}
+		st.hist["wuffs-c-decoders:files"]++
+		if !ok {
+			fail("status", fmt.Sprintf("final status %q", status))
+			continue
+		}
+		out, err := srv.Do(cserve.Get(1, cserve.GetDst), cserve.Get(1, cserve.GetSrc))
+		if err != nil {
+			ev.Fatal("cserve: %v", err)
+		}
+		if !bytes.Equal(out[0].Data, want[i]) {
+			fail("bytes-differ", fmt.Sprintf("decoded %d bytes, payload has %d, first difference at %d", len(out[0].Data), len(want[i]), firstDiff(out[0].Data, want[i])))
+		} else if out[1].Total != 0 {
+			fail("trailing-input", fmt.Sprintf("status ok but %d input bytes were left unread", out[1].Total))
+		} else {
+			st.wuffsFilesOK++
+		}
+	}
+	return true
 }
 
 // runBatches: every batch = up to 500 payloads; per format the encodings are
@@ -289,12 +357,22 @@ func runBatches(r *ev.Run, xz *xzTool, scratch string, hw *hangWatch, nBatches i
 			var names []string
 			var want [][]byte
 			var which []int
+			var encs, wantAll [][]byte
+			var whichAll []int
 			for i, sp := range specs {
 				hw.set(w, func() string { return fmt.Sprintf("round trip %s of %s", f.name, sp) })
 				hw.wit[w] = func() any { return rtWitness{"roundtrip", f.name, "hang", sp, "Encode/Decode does not return"} }
 				enc := checkPayload(r, f, sp, payloads[i], &st)
 				hw.clear(w)
-				if enc == nil || xz == nil {
+				if enc == nil {
+					continue
+				}
+				if wuffsSrv != nil && len(payloads[i]) <= wuffsMaxPayload {
+					encs = append(encs, enc)
+					wantAll = append(wantAll, payloads[i])
+					whichAll = append(whichAll, i)
+				}
+				if xz == nil {
 					continue
 				}
 				n := fmt.Sprintf("%d.%s", i, f.xzFmt)
@@ -323,9 +401,9 @@ func runBatches(r *ev.Run, xz *xzTool, scratch string, hw *hangWatch, nBatches i
 							rtWitness{"roundtrip", f.name, v.clause, sp, v.detail})
 					}
 				}
-				if hookWuffsDecoders(f, dir, names, want) {
-					st.hist["wuffs-c-decoders:batches"]++
-				}
+			}
+			if len(encs) > 0 && hookWuffsDecoders(r, w, f, specs, whichAll, encs, wantAll, &st) {
+				st.hist["wuffs-c-decoders:batches"]++
 			}
 			if xz != nil {
 				os.RemoveAll(dir)
@@ -349,6 +427,7 @@ func (a *rtStats) merge(b rtStats) {
 	a.xzLz += b.xzLz
 	a.xzWalkFail += b.xzWalkFail
 	a.xzFilesOK += b.xzFilesOK
+	a.wuffsFilesOK += b.wuffsFilesOK
 	a.xzFilesBad += b.xzFilesBad
 	a.encBytes += b.encBytes
 	a.payloadBytes += b.payloadBytes
@@ -365,6 +444,7 @@ func (a *rtStats) publish(r *ev.Run, label string) {
 	r.Add(pre+"payload_bytes", a.payloadBytes)
 	r.Add(pre+"encoded_bytes", a.encBytes)
 	r.Add(pre+"xz_tool_files_agreeing", a.xzFilesOK)
+	r.Add(pre+"wuffs_c_decoder_files_agreeing", a.wuffsFilesOK)
 	r.Add(pre+"xz_tool_files_disagreeing", a.xzFilesBad)
 	r.Add(pre+"model_encoder_byte_identical", a.modelAgree)
 	r.Add(pre+"model_encoder_differs(meter_only)", a.modelDiffer)
